@@ -19,6 +19,8 @@ import (
 // ---------- C04: WKB encoding is lossless and decoding is its exact inverse ----------
 
 type C04Case struct {
+	// RawHex: when set the case is raw bytes (native fuzzing / replay): decode-encode-decode fixpoint only.
+	RawHex   string `json:"raw_hex,omitempty"`
 	G        gm.G   `json:"g"`
 	Orders   []bool `json:"orders"`   // per-element byte order for the independent writer (true = big endian)
 	Trailing string `json:"trailing"` // hex of bytes appended after the encoding
@@ -57,6 +59,11 @@ func hasEmptyMember(g gm.G) bool {
 }
 
 func c04Check(c C04Case, cx *h.Ctx) *h.Failure {
+	if c.RawHex != "" {
+		b, _ := hex.DecodeString(c.RawHex)
+		cx.Class("raw-bytes")
+		return c04Raw(b)
+	}
 	model := c.G.Norm()
 	g := c.G.ToGeom()
 	cx.Class("type=" + model.T)
